@@ -363,9 +363,11 @@ def dimensionOrder (dims : List Dim) : List Nat :=
   else List.range n
 
 /-- `Dimensions.shape` -/
-def dimsShape (dims : List Dim) : R (List Nat) := do
-  let shapes ← mapR Dim.shape dims
-  pure ((dimensionOrder dims).map (fun i => shapes.getD i 0))
+def dimsShape (dims : List Dim) : R (List Nat) :=
+  -- `tuple(d.shape for d in [self[i] for i in self.dimension_order])`: evaluated IN that order
+  mapR (fun i => match dims[i]? with
+    | some d => d.shape
+    | none => .error .indexError) (dimensionOrder dims)
 
 /-! ## the cube -/
 
@@ -382,9 +384,11 @@ def knownMeasures : List String :=
   ["covariance", "count", "mean", "median", "overlap", "stddev", "sum", "valid_overlap",
    "valid_count_unweighted", "valid_count_weighted", "weighted_squared_count"]
 
-/-- `CUBE_MEASURE.NUMERIC_CUBE_MEASURES()` in the canonical (declaration) order -/
+/-- `CUBE_MEASURE.NUMERIC_CUBE_MEASURES()` in the DECLARATION order of `CUBE_MEASURE`
+    (covariance, count, mean, median, overlap, stddev, sum, valid_overlap, valid_count_unweighted,
+    valid_count_weighted, weighted_squared_count) -/
 def numericMeasures : List String :=
-  ["mean", "median", "sum", "stddev", "valid_count_unweighted", "valid_count_weighted"]
+  ["mean", "median", "stddev", "sum", "valid_count_unweighted", "valid_count_weighted"]
 
 /-- `result.measures` as the library reads it for `available_measures`
     (`CUBE_MEASURE(m)` raises ValueError on an unknown key) -/
@@ -395,9 +399,11 @@ def measuresOf (resp : J) : R (List (String × J)) := do
   | .obj kvs => if kvs.all (fun p => knownMeasures.contains p.1) then pure kvs else .error .valueError
   | _ => .error .attributeError
 
-/-- `Cube._available_numeric_measures`.  The library takes `tuple(frozenset ∩ set)`: the ORDER is the
-    hash order of the running process (enum members hash by name, string hashing is salted), so it
-    is the parameter `ord` (any list of measure names); what is present is filtered from it. -/
+/-- `Cube._available_numeric_measures`: the numeric measures present, in the order `ord`.
+    Since fix F40 the library iterates `CUBE_MEASURE` in declaration order, i.e. `ord = numericMeasures`
+    (before, `tuple(frozenset ∩ set)` made the order — hence WHICH measure's metadata names the inflated
+    rows dimension / defines a numeric-array dimension — depend on the hash seed of the process).
+    The functions stay parametric in `ord`: every theorem holds for any order. -/
 def availableNumeric (ord : List String) (resp : J) : R (List String) := do
   let ms ← measuresOf resp
   pure ((ord.filter numericMeasures.contains).filter (fun m => (ms.lookup m).isSome))
@@ -531,6 +537,7 @@ structure TVar where
   var : Var
   transposed : Bool := false      -- categorical array rendered categories-first
   itemPos : List Nat := []        -- arrays: raw positions of the items not flagged missing
+  nItems : Nat := 0               -- arrays: number of ALL items the payload carries
   deriving Repr, Inhabited
 
 def DT.isCatLike : DT → Bool
@@ -541,16 +548,16 @@ def DT.isCatLike : DT → Bool
 def groupVars : List (DT × List Bool) → Option (List TVar)
   | [] => some []
   | [(dt, m)] =>
-    if dt.isCatLike then some [⟨⟨.cat, m.length, m, false⟩, false, []⟩] else none
+    if dt.isCatLike then some [⟨⟨.cat, m.length, m, false⟩, false, [], 0⟩] else none
   | (dt, m) :: (dt2, m2) :: rest =>
     if dt = .mrSubvar && dt2 = .mrCat then
-      (groupVars rest).map (⟨⟨.arr, (validIdxs m).length, m2, true⟩, false, validIdxs m⟩ :: ·)
+      (groupVars rest).map (⟨⟨.arr, (validIdxs m).length, m2, true⟩, false, validIdxs m, m.length⟩ :: ·)
     else if dt = .caSubvar && dt2 = .caCat then
-      (groupVars rest).map (⟨⟨.arr, (validIdxs m).length, m2, false⟩, false, validIdxs m⟩ :: ·)
+      (groupVars rest).map (⟨⟨.arr, (validIdxs m).length, m2, false⟩, false, validIdxs m, m.length⟩ :: ·)
     else if dt = .caCat && dt2 = .caSubvar then
-      (groupVars rest).map (⟨⟨.arr, (validIdxs m2).length, m, false⟩, true, validIdxs m2⟩ :: ·)
+      (groupVars rest).map (⟨⟨.arr, (validIdxs m2).length, m, false⟩, true, validIdxs m2, m2.length⟩ :: ·)
     else if dt.isCatLike then
-      (groupVars ((dt2, m2) :: rest)).map (⟨⟨.cat, m.length, m, false⟩, false, []⟩ :: ·)
+      (groupVars ((dt2, m2) :: rest)).map (⟨⟨.cat, m.length, m, false⟩, false, [], 0⟩ :: ·)
     else none
 
 /-- apparent kind of a library dimension type, as the count extractors see it -/
